@@ -175,6 +175,11 @@ class Interp:
 
     def class_attr(self, cinfo, name):
         """value of a class-level attribute (searching the MRO), or UNBOUND"""
+        store = getattr(self.ctx, "class_attrs", None)
+        if store:
+            for c in cinfo.mro():
+                if isinstance(c, ClassInfo) and (c.qualname, name) in store:
+                    return store[(c.qualname, name)]
         found = cinfo.find_class_attr(name)
         if found is None:
             return UNBOUND
@@ -378,6 +383,9 @@ class Interp:
 
     def x_Expr(self, st, env, module, cls):
         if isinstance(st.value, ast.Constant):
+            return
+        if isinstance(st.value, ast.Yield) and getattr(self, "yield_hooks", None):
+            self.yield_hooks[-1](self, self.eval(st.value.value, env, module, cls) if st.value.value else None)
             return
         if isinstance(st.value, ast.Yield):
             env_y = self.find_yield(env)
@@ -815,6 +823,9 @@ class Interp:
                     break
             args, kwargs = self.eval_args(e, env, module, cls)
             if target is None:
+                if e.func.attr == "__init__" and isinstance(selfv, SObj) and any(isinstance(c, str) and c.split(".")[-1] == "UserDict" for c in mro):
+                    selfv.fields["data"] = dict(args[0]) if args and isinstance(args[0], dict) else {}      # collections.UserDict.__init__
+                    return None
                 if e.func.attr in ("__init__", "__post_init__", "__init_subclass__"):
                     return None
                 self.outside(f"super().{e.func.attr} not found", e)
